@@ -1186,6 +1186,8 @@ class Compiler:
 
         # New state for function
         self.bytecode = []
+        old_source_map = self.source_map
+        self.source_map = {}  # positions are relative to this function's code
         self.constants = []
         self.locals = [p.name for p in node.params] + ["arguments"]
         self.loop_stack = []
@@ -1224,6 +1226,7 @@ class Compiler:
             num_locals=len(self.locals),
             free_vars=self._free_vars[:],
             cell_vars=self._cell_vars[:],
+            source_map=self.source_map,
             is_arrow=True,
         )
 
@@ -1233,6 +1236,7 @@ class Compiler:
 
         # Restore state
         self.bytecode = old_bytecode
+        self.source_map = old_source_map
         self.constants = old_constants
         self.locals = old_locals
         self.loop_stack = old_loop_stack
@@ -1273,6 +1277,8 @@ class Compiler:
         # New state for function
         # Locals: params first, then 'arguments' reserved slot
         self.bytecode = []
+        old_source_map = self.source_map
+        self.source_map = {}  # positions are relative to this function's code
         self.constants = []
         self.locals = [p.name for p in params] + ["arguments"]
 
@@ -1323,6 +1329,7 @@ class Compiler:
             num_locals=len(self.locals),
             free_vars=self._free_vars[:],
             cell_vars=self._cell_vars[:],
+            source_map=self.source_map,
         )
 
         # Pop outer scope if we pushed it
@@ -1331,6 +1338,7 @@ class Compiler:
 
         # Restore state
         self.bytecode = old_bytecode
+        self.source_map = old_source_map
         self.constants = old_constants
         self.locals = old_locals
         self.loop_stack = old_loop_stack
